@@ -20,7 +20,7 @@
 (* Runtime values are records of ONE shape (TLC cannot compare values of   *)
 (* different kinds):                                                       *)
 (*   k  kind   int bool str ptr slice iface func map struct array tuple    *)
-(*             iter dstk chan undef | heap-only: mapobj iterobj             *)
+(*             iter dstk chan undef | heap-only: mapobj iterobj chanobj     *)
 (*   i  int value / 0,1 / heap address (0 = nil) / function index (0 = nil)*)
 (*   a,b,c     slice offset, length, capacity                              *)
 (*   t  dynamic type tag of an interface value ("" = nil interface)        *)
@@ -354,6 +354,11 @@ Builtin(S, I, name, as) ==
          IF as[1].i = 0 THEN Adv(SetReg(S, TupV(<<>>)))
          ELSE LET j == MapFind(S.heap[as[1].i], as[2]) IN
               Adv(SetReg(IF j = 0 THEN S ELSE [S EXCEPT !.heap[as[1].i].e = DropAt(@, j)], TupV(<<>>)))
+    [] name = "close" ->
+         IF as[1].k # "chan" THEN Unsup(S, "close of " \o as[1].k)
+         ELSE IF as[1].i = 0 THEN Raise(S, RtErr("close of nil channel"))
+         ELSE IF S.heap[as[1].i].b = 1 THEN Raise(S, RtErr("close of closed channel"))
+         ELSE Adv(SetReg([S EXCEPT !.heap[as[1].i].b = 1], TupV(<<>>)))
     [] name = "clear" ->
          IF as[1].k = "map" THEN Adv(SetReg(IF as[1].i = 0 THEN S ELSE [S EXCEPT !.heap[as[1].i].e = <<>>], TupV(<<>>)))
          ELSE IF as[1].k = "slice" THEN Adv(SetReg(WriteElems(S, as[1], 0, [j \in 1..as[1].b |-> I.aux[1]]), TupV(<<>>)))
@@ -522,6 +527,32 @@ Exec(S, ch) ==
          Fin(S, [Arg(S, 1) EXCEPT !.e = ArgsFrom(S, 2)])
     [] I.op = "makemap" ->
          Adv(SetReg(Alloc(S, Mk("mapobj")), [Mk("map") EXCEPT !.i = NewAddr(S)]))
+    [] I.op = "makechan" ->
+         \* (C15 exports only) "yields a new channel"; heap cell: .c = buffer size, .e = queue, .b = 1 when closed.
+         \* One goroutine: an operation that would block forever is outside the fragment.
+         LET n == Arg(S, 1).i IN
+         IF n < 0 THEN Raise(S, RtErr("makechan: size out of range"))
+         ELSE Adv(SetReg(Alloc(S, [Mk("chanobj") EXCEPT !.c = n]), [Mk("chan") EXCEPT !.i = NewAddr(S)]))
+    [] I.op = "send" ->
+         \* "sends X on channel Chan"
+         LET cv == Arg(S, 1) IN
+         IF cv.k # "chan" THEN Stuck(S, "send on " \o cv.k)
+         ELSE IF cv.i = 0 THEN Unsup(S, "send on a nil channel blocks forever")
+         ELSE IF S.heap[cv.i].b = 1 THEN Raise(S, RtErr("send on closed channel"))
+         ELSE IF Len(S.heap[cv.i].e) >= S.heap[cv.i].c THEN Unsup(S, "send blocks: no other goroutine")
+         ELSE Adv([S EXCEPT !.heap[cv.i].e = Append(@, Arg(S, 2))])
+    [] I.op = "recv" ->
+         \* "receives from channel Chan.  If CommaOk, the result is a 2-tuple of the value and a boolean indicating
+         \*  the success of the receive"; a closed, drained channel yields the zero value
+         LET cv == Arg(S, 1) IN
+         IF cv.k # "chan" THEN Stuck(S, "receive from " \o cv.k)
+         ELSE IF cv.i = 0 THEN Unsup(S, "receive from a nil channel blocks forever")
+         ELSE LET cell == S.heap[cv.i] IN
+              IF cell.e # <<>> THEN
+                 Fin([S EXCEPT !.heap[cv.i].e = Tail(@)],
+                     IF I.n = 1 THEN TupV(<<Head(cell.e), BoolV(TRUE)>>) ELSE Head(cell.e))
+              ELSE IF cell.b = 1 THEN Fin(S, IF I.n = 1 THEN TupV(<<I.aux[1], BoolV(FALSE)>>) ELSE I.aux[1])
+              ELSE Unsup(S, "receive blocks: no other goroutine")
     [] I.op = "makeslice" ->
          \* "yields a slice of length Len backed by a newly allocated array of length Cap"
          LET n == Arg(S, 1).i
